@@ -481,7 +481,7 @@ def gfSuffix : Stmt :=
 
 /-- the body of `get_fragment` around the `if group_fragments:` statement -/
 def gfTop (grouped ordered : Stmt) : Stmt :=
-  (.seq (.ite (.isInt (.var 1)) (.set 1 (.list1 (.var 1))) .skip) (.seq (.ite (.isInt (.var 2)) (.set 2 (.list1 (.var 2))) (.ite (.isNone (.var 2)) (.set 2 .nil) .skip)) (.seq (.ite (.anyCommon (.var 1) (.var 2)) (.raise 668) .skip) (.seq (.set 5 .nil) (.seq (.set 6 .nil) (.seq (.set 7 .nil) (.seq (.set 8 .nil) (.seq (.set 9 .nil) (.seq (.set 10 .nil) (.seq (.set 11 .nil) (.seq (.set 12 (.int 0)) (.seq (.ite (.var 4) grouped ordered) gfSuffix))))))))))))
+  (.seq (.ite (.isInt (.var 1)) (.set 1 (.list1 (.var 1))) .skip) (.seq (.ite (.isInt (.var 2)) (.set 2 (.list1 (.var 2))) (.ite (.isNone (.var 2)) (.set 2 .nil) .skip)) (.seq (.ite (.anyCommon (.var 1) (.var 2)) (.raise 0) .skip) (.seq (.set 5 .nil) (.seq (.set 6 .nil) (.seq (.set 7 .nil) (.seq (.set 8 .nil) (.seq (.set 9 .nil) (.seq (.set 10 .nil) (.seq (.set 11 .nil) (.seq (.set 12 (.int 0)) (.seq (.ite (.var 4) grouped ordered) gfSuffix))))))))))))
 
 def gGrouped : Stmt :=
   (.seq (.set 13 (.int 0)) (.seq (.forIn 14 (.var 1) (gOuter true))
@@ -527,7 +527,7 @@ theorem gf_pre (inp : List Val) (R G : List Nat) (orient group : Bool) (hov : R.
         (exec inp (fun _ _ => (0 : Int)) gfSuffix) := by
   have hany := any_natL R G
   rw [hov] at hany
-  have h3 : exec inp (fun _ _ => (0 : Int)) (.ite (.anyCommon (.var 1) (.var 2)) (.raise 668) .skip) (gfInit R G orient group) =
+  have h3 : exec inp (fun _ _ => (0 : Int)) (.ite (.anyCommon (.var 1) (.var 2)) (.raise 0) .skip) (gfInit R G orient group) =
       some (gfInit R G orient group) := by
     simp only [exec, evalE, gfInit, List.getElem?_cons_succ, List.getElem?_cons_zero, hany]
     simp [b2v, Val.truthy]
